@@ -7,7 +7,12 @@ pages of a real `cherrypy.Application`, and says how the (simulated) WSGI server
      'gtb': 0|1 (request.show_tracebacks in the global config; default 1),
      'pages': [{'dispatch': OUT, 'ns': OUT, 'body': OUT, 'handler': [OUT, SHAPE, STATUS|None],
                 'errResp': None|OUT, 'errPage': 'absent'|'cbOk'|'cbFail'|'tmplFail', 'tb': 0|1, 'stream': 0|1,
-                'hooks': [[point 0..7, id, priority, failsafe 0|1, OUT], ...]   # attachment order
+                'hooks': [[point 0..7, id, priority, failsafe 0|1, OUT(, VIA)], ...]
+                         # VIA (optional): 'c' = a Hook object in config `hooks.<point>.<n>` (default);
+                         # 't1' | 't2' | 't3' = through a cherrypy Tool of the toolbox `vt` switched on in config, the
+                         # priority given by Tool(..., priority=), by `vt.<tool>.priority` in config, or by the
+                         # callable's `priority` attribute; fail-safe by the callable's `failsafe` attribute.
+                         # Attachment order = config hooks in list order, then tool hooks in list order.
                }, ...]}
     OUT = 'ok' | 'he<code>' | 'hr<code>' | 'ir<page>' | 'ex'
 
@@ -266,9 +271,15 @@ def _vp_namespace(k, v):
     do_raise(v, 'namespace')
 
 
+# one toolbox for the probe tools; registered in the request's namespaces *before* `vp`, so that a failing
+# namespace handler finds every hook attached already
+VT = cherrypy._cptools.Toolbox('vt')
+
+
 class ProbeRequest(_cprequest.Request):
     hooks = ProbeHookMap(_cprequest.hookpoints)
     namespaces = _cprequest.Request.namespaces.copy()
+    namespaces['vt'] = VT
     namespaces['vp'] = _vp_namespace
 
     def __init__(self, *a, **k):
@@ -401,9 +412,31 @@ def build_app(plan):
         # the failing namespace entry goes first; `vp` is processed after the built-in namespaces anyway
         if pg['ns'] != 'ok':
             sec['vp.site'] = pg['ns']
-        for n, (point, hid, prio, fs, out) in enumerate(pg['hooks']):
-            sec['hooks.%s.%d' % (POINTS[point], n)] = _cprequest.Hook(
-                _mk_hook(point, hid, out), failsafe=bool(fs), priority=prio)
+        for n, hk in enumerate(pg['hooks']):
+            point, hid, prio, fs, out = hk[:5]
+            via = hk[5] if len(hk) > 5 else 'c'
+            if via == 'c':
+                sec['hooks.%s.%d' % (POINTS[point], n)] = _cprequest.Hook(
+                    _mk_hook(point, hid, out), failsafe=bool(fs), priority=prio)
+        for n, hk in enumerate(pg['hooks']):
+            point, hid, prio, fs, out = hk[:5]
+            via = hk[5] if len(hk) > 5 else 'c'
+            if via == 'c':
+                continue
+            cb = _mk_hook(point, hid, out)
+            if fs:
+                cb.failsafe = True
+            name = 'h%d_%d' % (i, hid)
+            if via == 't1':
+                tool = cherrypy.Tool(POINTS[point], cb, priority=prio)
+            elif via == 't2':
+                tool = cherrypy.Tool(POINTS[point], cb, priority=(prio + 17) % 100)
+                sec['vt.%s.priority' % name] = prio
+            else:
+                cb.priority = prio
+                tool = cherrypy.Tool(POINTS[point], cb)
+            setattr(VT, name, tool)
+            sec['vt.%s.on' % name] = True
         sec['request.show_tracebacks'] = bool(pg['tb'])
         if pg['stream']:
             sec['response.stream'] = True
@@ -422,6 +455,7 @@ def build_app(plan):
         conf['/p%d' % i] = sec
     app = cherrypy.Application(Root(plan['pages']), '', conf)
     app.request_class = ProbeRequest
+    app.toolboxes['vt'] = VT
     return app
 
 
@@ -523,7 +557,8 @@ def plan_line(plan):
     out = [' '.join(head)]
     for pg in plan['pages']:
         h = pg['handler']
-        hooks = ','.join('%d.%d.%d.%d.%s' % tuple(x) for x in pg['hooks']) or '-'
+        eff = [x for x in pg['hooks'] if len(x) < 6 or x[5] == 'c'] + [x for x in pg['hooks'] if len(x) > 5 and x[5] != 'c']
+        hooks = ','.join('%d.%d.%d.%d.%s' % tuple(x[:5]) for x in eff) or '-'
         out.append(' '.join([pg['dispatch'], pg['ns'], pg['body'], '%s/%s/%s' % (h[0], h[1], opt(h[2])),
                              opt(pg['errResp']), pg['errPage'], str(pg['tb']), str(pg['stream']), hooks]))
     return ' | '.join(out)
@@ -618,7 +653,8 @@ def gen_page(rng, npages, nid, focus=None, rare=0.06):
         for _ in range(n):
             nid[0] += 1
             hooks.append([p, nid[0], rng.choice(PRIOS), rng.choice([0, 1]),
-                          gen_out(rng, npages, weights=(55, 22, 8, 8, 7) if p == focus else (72, 12, 5, 5, 6))])
+                          gen_out(rng, npages, weights=(55, 22, 8, 8, 7) if p == focus else (72, 12, 5, 5, 6)),
+                          rng.choices(['c', 't1', 't2', 't3'], weights=[70, 10, 10, 10])[0]])
     rng.shuffle(hooks)
     return {
         'dispatch': gen_out(rng, npages, (30, 30, 15, 10, 15)) if rng.random() < rare else 'ok',
